@@ -122,6 +122,10 @@ func propC06(a *Analysis, r *Registry) {
 			}
 		})
 	}
+	// the integer helpers the bounds are written with (pinned on their own: the specs call them too)
+	for _, h := range [][2]string{{"stats.maxint", "ite(a<b, b, a)"}, {"stats.minint", "ite(a<b, a, b)"}} {
+		b.Formula(rB, h[0], h[0], []string{"a", "b"}, nil, 0, h[1], nil)
+	}
 	b.CheckDFloor("D-floor", "stats.(BinomialDist).PMF", "stats.(BinomialDist).CDF", "stats.(HypergeometicDist).PMF", "stats.(HypergeometicDist).CDF")
 	// both implement DiscreteDist
 	if dd, ok := a.W.Lib["stats"].Members["DiscreteDist"]; ok {
